@@ -28,6 +28,7 @@ t2 = re.sub(r"inductive CAst where.*?deriving Repr, Inhabited\n", "", t2, flags=
 t2 = re.sub(r"/-- a type schema as data.*?structure Schema where.*?deriving Repr, Inhabited\n", "", t2, flags=re.S)
 t2 = re.sub(r"mutual\ndef Term.shift.*?end\n", "", t2, flags=re.S, count=1)
 t2 = re.sub(r"def allocVars .*?\n\n", "", t2, flags=re.S, count=1)
+t2 = re.sub(r"/-- Python builds the body of a schema.*?def spineFollow .*?\n\n", "", t2, flags=re.S, count=1)   # shared with Infer.lean
 t2 = t2.replace("end Tfv", "")
 out = '''import Tfv.Model.Infer
 /-!
